@@ -492,7 +492,17 @@ func (k PublicKeyBTCEC) Address() Address {
 	return p.Address().Bytes()
 }
 
-// VerifyBytes checks a signature made by PrivateKeyBTCEC.Sign (DER encoded, over the SHA-256 of msg)
+// btcecDigest is what a BTCEC key signs: the double SHA-256 of the message, as in Bitcoin. It must
+// not be the digest of PublicKeySECP256K1 (one SHA-256): both key types take the same 33 key bytes
+// and have the same address, so a signature made for one would also verify for the other, as a
+// second spelling of the same signed transaction with another hash
+func btcecDigest(msg []byte) []byte {
+	first := sha256.Sum256(msg)
+	second := sha256.Sum256(first[:])
+	return second[:]
+}
+
+// VerifyBytes checks a signature made by PrivateKeyBTCEC.Sign (DER encoded, over btcecDigest(msg))
 func (k PublicKeyBTCEC) VerifyBytes(msg []byte, sig []byte) bool {
 	s, err := btcec.ParseDERSignature(sig, btcec.S256())
 	if err != nil {
@@ -503,8 +513,7 @@ func (k PublicKeyBTCEC) VerifyBytes(msg []byte, sig []byte) bool {
 	if !bytes.Equal(s.Serialize(), sig) {
 		return false
 	}
-	hash := sha256.Sum256(msg)
-	return s.Verify(hash[:], &k.key)
+	return s.Verify(btcecDigest(msg), &k.key)
 }
 
 func (k PublicKeyBTCEC) Equals(PubkeyBTCEC PublicKey) bool {
@@ -524,8 +533,7 @@ func (k PrivateKeyBTCEC) Bytes() []byte {
 func (k PrivateKeyBTCEC) Sign(msg []byte) ([]byte, error) {
 	priv, _ := btcec.PrivKeyFromBytes(btcec.S256(), k.Bytes())
 	// ECDSA signs a digest: the message as it is would be cut to its first 32 bytes
-	hash := sha256.Sum256(msg)
-	s, err := priv.Sign(hash[:])
+	s, err := priv.Sign(btcecDigest(msg))
 	if err != nil {
 		return nil, err
 	}
